@@ -35,6 +35,22 @@ PROOF_HEADER = "From A816 Require Import Properties.C18 Properties.C18File Prope
 THEOREMS += ["C18s_get_table_rule", "C18s_nearest", "C18s_nearest_encloses", "C18s_table_current_scope", "C18s_text_captures", "C18s_text_then_table", "C18s_compound_opens", "C18s_scope_opens", "C18s_macro_opens", "C18s_for_opens", "C18s_scoped_body", "C18s_macro_body_visible", "C18s_block_invisible", "C18s_scope_invisible", "C18s_macro_invisible", "C18s_for_invisible", "C18s_if_no_scope", "C18s_include_no_scope", "C18s_code_splice_no_scope", "C18s_tables_kept", "C18s_link_codegen", "C18s_embed_assemble", "C18s_embed_assemble_err", "C18s_initial_resolver_start", "C18s_embed_assemble_lorom", "C18s_embed_assemble_err_lorom", "C18s_passes", "C18s_text_node_layout", "C18s_text_node_layout_mini", "C18s_text_node_advance", "C18s_layout_program", "C18s_layout_lorom"]
 # model-tie modules whose correspondence is part of this property's check (parts of the model its theorems rest on)
 TIES = ['TBLFILE']
+
+def instantiate(gen_q):
+    """Per run: the side conditions of the source-text theorems (Properties/C18Text.v) hold on the tables regenerated from /repo."""
+    text = ("From A816 Require Import Model.Assemble Model.Parser Spec.BusLaws Proofs.BusProofs Proofs.DataText "
+            "Proofs.RoundTripParse Proofs.RoundTripProgram.\nRequire Import Run.GenBuses Run.GenOpcodes Run.GenLexicon.\n"
+            + LIVE_DEF.format(L="L18") +
+            "Definition C18_default : config := {| cf_rom := None; cf_defines := [] |}.\n"
+            "Lemma C18_live_lexicon : RoundTripProgram.lexicon_rt (lv_lex L18) = true.\nProof. vm_compute. reflexivity. Qed.\n"
+            "Lemma C18_live_keywords : kw_in (lv_lex L18) k_table = true /\\ kw_in (lv_lex L18) k_text = true /\\ kw_in (lv_lex L18) k_dl = true.\n"
+            "Proof. vm_compute. repeat split; reflexivity. Qed.\n"
+            "Lemma C18_live_bus : bus_agree_b (lv_low L18) lorom = true.\nProof. vm_compute. reflexivity. Qed.\n"
+            "Lemma C18_live_config : low_rom_config L18 C18_default.\nProof. split; [vm_compute; reflexivity|exact I]. Qed.\n")
+    return text, ["C18_live_lexicon", "C18_live_keywords", "C18_live_bus", "C18_live_config"]
+
+
+LIVE_DEF = 'Definition {L} : live := {{| lv_low := Run.GenBuses.low_rom_bus; lv_high := Run.GenBuses.high_rom_bus; lv_busmap := Run.GenBuses.bus_mapping; lv_optable := Run.GenOpcodes.opcode_table; lv_prec := Run.GenOpcodes.operator_precedence; lv_lex := mk_lexicon Run.GenLexicon.mnemonics Run.GenLexicon.mnemonics_without_operand Run.GenLexicon.keywords |}}.\n'
 RULE = ("generated tables (1-30 lines, single/multi-character texts with overlapping prefixes, 1-3-byte codes, duplicate "
         "texts and codes, NN:k= ignore entries, noise lines) written as .tbl files and loaded by script.Table; strings over "
         "the table alphabet plus [0xNN] escapes (also above 0xFF), unknown and non-ASCII characters: Table.to_bytes(s), "
@@ -213,6 +229,14 @@ def cases(ctx):
               "lines": ["41=a", "42=b", "4344=ab", "454647=abc", "48=[", "49=ab"]}
     for s in ["abcab", "ab", "[0x41]a", "[0x123]", "[0xZ]a", "zzz", "a[0x1", "é a", "", "abca", "aab", "abab[0x00]c"]:
         out.append({"kind": "codec", "table": t_over, "s": s})
+    # entries with a longer entry whose proper prefixes are NOT entries themselves: a text that follows the long entry part of
+    # the way and then diverges still takes the shorter matches
+    t_gap = {"entries": [["t", [0x54], None], ["h", [0x48], None], ["a", [0x41], None], ["the", [0x01], None], ["ab", [0x02], None],
+                         ["abcd", [0x03], None], ["b", [0x42], None], ["c", [0x43], None], ["\u00e9", [0x99], None], ["caf\u00e9s", [0x04], None]],
+             "lines": ["54=t", "48=h", "41=a", "01=the", "02=ab", "03=abcd", "42=b", "43=c", "99=\u00e9", "04=caf\u00e9s"]}
+    for s in ["that", "thathe", "abca", "abcab", "abcd", "abc", "th", "caf\u00e9", "caf\u00e9s", "cab"]:
+        out.append({"kind": "codec", "table": t_gap, "s": s})
+    out.append({"kind": "asm", "tables": [t_gap], "prog": [["table", 0], ["text", "that"], ["block", [["text", "abca"], ["text", "caf\u00e9"]]]]})
     t_quirk = {"entries": [["a", [0x41, 0x42, 0x43], None], ["a", [0x44], None], ["x", [0x45], 2], ["y", [0x46], 0],
                            ["l\nm", [0x47], None]],
                "lines": ["414243=a", "44=a", "45:2=x", "46:0=y", "47=l\\nm"]}
